@@ -77,7 +77,7 @@ type sharedCodecs struct {
 	segmentCodecs []segment.Codec
 	lz4           lz4.Compressor
 	snappy        snappy.Compressor
-	list, set, mp, tuple datacodec.Codec
+	list, set, mp, tuple, udt datacodec.Codec
 }
 
 func newSharedCodecs() *sharedCodecs {
@@ -89,6 +89,9 @@ func newSharedCodecs() *sharedCodecs {
 	s.set, _ = datacodec.NewSet(datatype.NewSet(datatype.Varchar))
 	s.mp, _ = datacodec.NewMap(datatype.NewMap(datatype.Varchar, datatype.Int))
 	s.tuple, _ = datacodec.NewTuple(datatype.NewTuple(datatype.Int, datatype.Varchar))
+	if ut, err := datatype.NewUserDefined("ks", "point", []string{"a", "b"}, []datatype.DataType{datatype.Int, datatype.Varchar}); err == nil {
+		s.udt, _ = datacodec.NewUserDefined(ut)
+	}
 	return s
 }
 
@@ -197,7 +200,7 @@ func c18GenOps(T *Tape, sc *sharedCodecs, task int, n int) []shareOp {
 			}})
 		default: // CQL value codecs: package singletons and shared composite codecs
 			v := versions[T.Draw("version", len(versions))]
-			k := T.Draw("dtype", 16)
+			k := T.Draw("dtype", 18)
 			x := int64(T.Draw("val", 1<<20)) - 1<<19
 			ops = append(ops, shareOp{name: fmt.Sprintf("%s:datacodec/%d", tag, k), run: func() (interface{}, error) { return c18Value(sc, k, x, v) }})
 		}
@@ -278,6 +281,20 @@ func c18Value(sc *sharedCodecs, k int, x int64, v primitive.ProtocolVersion) (in
 		}
 		var d []interface{}
 		return rtrip(sc.tuple, []interface{}{int32(x), s}, &d)
+	case 16: // user-defined type mapped to a Go struct (by field tag) and to a map
+		if v < primitive.ProtocolVersion3 || sc.udt == nil {
+			var d string
+			return rtrip(datacodec.Varchar, s, &d)
+		}
+		var d c04Point
+		return rtrip(sc.udt, c04Point{A: int32(x), B: s}, &d)
+	case 17:
+		if v < primitive.ProtocolVersion3 || sc.udt == nil {
+			var d int64
+			return rtrip(datacodec.Bigint, x, &d)
+		}
+		var d map[string]interface{}
+		return rtrip(sc.udt, map[string]interface{}{"a": int32(x), "b": s}, &d)
 	default:
 		var d primitive.UUID
 		u := primitive.UUID{}
